@@ -100,6 +100,9 @@ func genC09(r *world.Rng, w *world.World, big bool) {
 			nCur = m
 		}
 		cc := c
+		if r.Bool(0.35) {
+			form += "+constr" // built as a PBConstr (PropClause / AtLeast / GtEq) and converted with its Clause method
+		}
 		t.Ops = append(t.Ops, world.Op{Kind: "append", Con: &cc, Form: form})
 	}
 	w.Tasks = []world.TaskSpec{t}
